@@ -106,15 +106,11 @@ func cmdManifest() {
 }
 
 func init() {
-	for id, why := range map[string]string{
-		
-		"C06": "pending: rules not built yet",
-		"C09": "pending: rules not built yet",
-		"C12": "pending: rules not built yet",
-		"C15": "pending: rules not built yet",
-		"C19": "pending: rules not built yet",
-		"C17": "input/output relation of three in-place slice loops (element values and append aliasing); no structural clause that is a necessary condition and not a frozen source fragment; the sorted-input precondition at the call sites is checked under C04",
-	} {
+	// Properties without a registered check, with the reason. (A registered
+	// property is always listed as claimed; entries here only matter for ids
+	// that have no PropDef.) All twenty properties have a check now: C17 is
+	// claimed for its structural part only (see tool/c17.go).
+	for id, why := range map[string]string{} {
 		notApplicable[id] = why
 	}
 }
